@@ -11,6 +11,7 @@ from .. import tref
 from .dispatch_common import plan_summary
 from . import shape
 from . import groupcorr
+from .dispatch_common import d4_blocks
 
 PROP = "C11"
 
@@ -100,7 +101,13 @@ def run(tier, seed, replay=None):
     # re-run the hypothesis checks with judging, attributing failures as oracle failures of C11
     rep2 = C.Report(PROP, tier, seed)
     shape.validate(rep2, exe, [p for p, _ in accepted], PROP, judge=True, expand=False)
+    known = {f["id"] for f in C.findings_for(PROP)}
+    by_text = {p.invocation_text()[:3000]: p for p, _ in accepted}
     for dis in rep2.disagreements:
+        pl = by_text.get(dis.get("invocation"))
+        if pl is not None and "F-D4" in known and d4_blocks(pl) and all("memberOK fails" in x for x in dis.get("problems", [])):
+            rep.known("F-D4")
+            continue
         rep.oracle_failures.append({"clause": "member header is an instance of the family header / every family key is a bound of every member with its own binding",
                                     **dis})
     for plan, d in accepted:
@@ -122,7 +129,7 @@ def run(tier, seed, replay=None):
             if (id(plan), fi) in bad_rows:
                 rep.oracle_failures.append({**cj, "clause": "no member's row generalises another's", "family": fi, "pairs": bad_rows[(id(plan), fi)]})
     # independence: families with unrelated headers are formed independently
-    multi = [(p, d) for p, d in accepted if len(p.families) >= 2][: (25 if tier == "quick" else 600)]
+    multi = [(p, d) for p, d in accepted if len(p.families) >= 2 and not p.notes.get("lattice")][: (25 if tier == "quick" else 600)]
     subs, owner = [], []
     for p, d in multi:
         for fi in range(len(p.families)):
